@@ -27,9 +27,46 @@ import (
 
 const encKey = "6S-Ks2YYOW0xMvTzKSv6QD30gZeOi1c6Ydr-As5csWk="
 
-type gateCtl struct{}
+// gateCtl stops every store operation and origin call of the exchanges of a scheduled
+// concurrent step until the scheduler releases that exchange for one operation.
+type gateCtl struct {
+	mu      sync.Mutex
+	waiting map[int]chan struct{}
+	free    bool
+}
 
-func (g *gateCtl) wait(gid uint64, what string) {}
+func (g *gateCtl) wait(x int) {
+	g.mu.Lock()
+	if g.free || x == 0 {
+		g.mu.Unlock()
+		return
+	}
+	ch := make(chan struct{})
+	g.waiting[x] = ch
+	g.mu.Unlock()
+	<-ch
+}
+
+func (g *gateCtl) release(x int) bool {
+	g.mu.Lock()
+	ch, ok := g.waiting[x]
+	delete(g.waiting, x)
+	g.mu.Unlock()
+	if ok {
+		close(ch)
+	}
+	return ok
+}
+
+func (g *gateCtl) open() {
+	g.mu.Lock()
+	g.free = true
+	for x, ch := range g.waiting {
+		close(ch)
+		delete(g.waiting, x)
+	}
+	g.mu.Unlock()
+}
 
 // replyRec is what the driver keeps about a returned response to detect later
 // mutation by the cache (C16).
@@ -238,12 +275,16 @@ var hopNames = []string{"Connection", "X-Hop-A", "Keep-Alive", "Proxy-Authentica
 var cacheOwn = map[string]bool{"Age": true, "X-Httpcache-Status": true, "X-From-Cache": true}
 
 // doReq performs one exchange and logs begin / ret.
-func (r *runner) doReq(st *Step) {
+func (r *runner) doReq(st *Step) { r.doReqX(st, 0) }
+
+func (r *runner) doReqX(st *Step, x int) {
 	w := r.w
-	r.mu.Lock()
-	r.nx++
-	x := r.nx
-	r.mu.Unlock()
+	if x == 0 {
+		r.mu.Lock()
+		r.nx++
+		x = r.nx
+		r.mu.Unlock()
+	}
 	ctx, cancel := context.WithCancel(context.WithValue(context.Background(), xkey{}, x))
 	r.mu.Lock()
 	r.cancels = append(r.cancels, cancel) // cancelled at the end of the scenario unless scripted earlier
@@ -521,14 +562,50 @@ func RunScenario(t *testing.T, sc *Scenario, log *EventLog, seed int64, workDir 
 				// the requests of this step are issued concurrently on the one transport
 				log.Emit(M{"ev": "conc", "n": len(st.Par), "t": w.now()})
 				var wg sync.WaitGroup
-				for j := range st.Par {
-					wg.Add(1)
-					go func(ps *Step) {
-						defer wg.Done()
-						r.doReq(ps)
-					}(&st.Par[j])
+				if len(st.Sched) > 0 {
+					// replay of a model interleaving: exchange numbers are fixed up front, every store operation
+					// and origin call waits at the gate, the schedule releases one operation at a time
+					g := &gateCtl{waiting: map[int]chan struct{}{}}
+					w.mu.Lock()
+					w.gate = g
+					w.mu.Unlock()
+					r.mu.Lock()
+					x0 := r.nx
+					r.nx += len(st.Par)
+					r.mu.Unlock()
+					for j := range st.Par {
+						wg.Add(1)
+						go func(ps *Step, x int) {
+							defer wg.Done()
+							r.doReqX(ps, x)
+						}(&st.Par[j], x0+1+j)
+					}
+					synctest.Wait()
+					skipped := 0
+					for _, ci := range st.Sched {
+						if ci >= 0 && ci < len(st.Par) && g.release(x0+1+ci) {
+							synctest.Wait()
+						} else {
+							skipped++
+						}
+					}
+					g.open()
+					wg.Wait()
+					synctest.Wait()
+					w.mu.Lock()
+					w.gate = nil
+					w.mu.Unlock()
+					log.Emit(M{"ev": "sched", "n": len(st.Sched), "skipped": skipped, "t": w.now()})
+				} else {
+					for j := range st.Par {
+						wg.Add(1)
+						go func(ps *Step) {
+							defer wg.Done()
+							r.doReq(ps)
+						}(&st.Par[j])
+					}
+					wg.Wait()
 				}
-				wg.Wait()
 				log.Emit(M{"ev": "concend", "t": w.now()})
 			case "reopen":
 				synctest.Wait()
